@@ -1,0 +1,28 @@
+//go:build verif
+
+// Contracts for the exovc verifier (/verif). Comment-only: with the tag off this file is not part
+// of the package, with the tag on it declares nothing.
+package delegation
+
+// C10: delegate / undelegate / associate / dissociate take effect only when the precompile is invoked by
+// the configured gateway contract; otherwise the call fails and nothing changes.
+
+//@ func (Precompile).Delegate
+//@   requires contract != nil
+//@   modifies state(ctx)
+//@   ensures[C10.pd.del.gateway] !old(gatewayOK(ctx, contract.CallerAddress)) ==> err != nil && state(ctx) == old(state(ctx))
+
+//@ func (Precompile).Undelegate
+//@   requires contract != nil
+//@   modifies state(ctx)
+//@   ensures[C10.pd.undel.gateway] !old(gatewayOK(ctx, contract.CallerAddress)) ==> err != nil && state(ctx) == old(state(ctx))
+
+//@ func (Precompile).AssociateOperatorWithStaker
+//@   requires contract != nil
+//@   modifies state(ctx)
+//@   ensures[C10.pd.assoc.gateway] !old(gatewayOK(ctx, contract.CallerAddress)) ==> err != nil && state(ctx) == old(state(ctx))
+
+//@ func (Precompile).DissociateOperatorFromStaker
+//@   requires contract != nil
+//@   modifies state(ctx)
+//@   ensures[C10.pd.dissoc.gateway] !old(gatewayOK(ctx, contract.CallerAddress)) ==> err != nil && state(ctx) == old(state(ctx))
